@@ -11,4 +11,11 @@ ExportLeaves == (nc' = MaxC /\ ndel' = MaxDeliver) => Export
 \* while an implementation that walks like the pinned commit (or similarly) fails it.
 RefAll == RefCtr /\ RefHeads /\ RefFHeads /\ RefDel /\ RefRegLWW /\ MergeNeverFails
 ExportDeviations == IF RefAll THEN (RefAll' \/ Export) ELSE FALSE   \* deviated states are not extended
+\* Bulk deliveries (simulation): the highest node never writes and receives nothing until every commit exists; then it is
+\* handed heads of the writers only, so each of its merges walks a whole unmerged history (diamonds with branches of
+\* different lengths, fields written on one branch only) in one go - the case the per-commit deliveries rarely produce.
+Sink == CHOOSE n \in Nodes : \A m \in Nodes : m <= n
+BulkNext == \/ \E n \in Nodes \ {Sink} : Create(n) \/ Update(n) \/ \E c \in Ids : Deliver(n, c)
+            \/ nc = MaxC /\ \E c \in UNION {hd[m] : m \in Nodes \ {Sink}} : Deliver(Sink, c)
+BulkSpec == Init /\ [][BulkNext]_vars
 =============================================================================
